@@ -193,7 +193,7 @@ fn digits_part(r: &Recipe, salt: u64, lim: Limits) -> Vec<u8> {
 
 pub fn g_j(r: &Recipe, lim: Limits) -> (Vec<u8>, &'static str) {
     let fmt = if r.sel[7] & 1 == 0 { Fmt::F64 } else { Fmt::F32 };
-    let which = pick_w(r.sel[0], &[40, 20, 12, 10, 10, 8]);
+    let which = pick_w(r.sel[0], &[40, 20, 12, 10, 10, 8, 1]);
     let mut out: Vec<u8> = Vec::new();
     let class: &'static str;
     match which {
@@ -334,6 +334,37 @@ pub fn g_j(r: &Recipe, lim: Limits) -> (Vec<u8>, &'static str) {
                 }
             }
         }
+        6 => {
+            // long runs of zeros compensated by a large explicit exponent: the value is an ordinary number,
+            // the exponent magnitude is not (1e3, 1e4, around 2^16, 1e5)
+            class = "compensated-large-exponent";
+            let n = match r.k[0] % 8 {
+                0 => 1000 + (r.k[1] % 100) as usize,
+                1 => 10_000 + (r.k[1] % 100) as usize,
+                2..=5 => 65_530 + (r.k[1] % 20) as usize,
+                6 => 70_000 + (r.k[1] % 1000) as usize,
+                _ => 100_000 + (r.k[1] % 100) as usize,
+            };
+            let lead: Vec<u8> = (0..1 + r.k[2] % 18).map(|i| b'1' + (gen::mix(r.a ^ i as u64) % 9) as u8).collect();
+            let slack = (r.b % 41) as i64 - 20;
+            if r.k[3] % 2 == 0 {
+                // 0.000...0ddd e+(n+slack)
+                out.extend(b"0.");
+                out.extend(std::iter::repeat(b'0').take(n));
+                out.extend(&lead);
+                out.push(b'e');
+                out.extend((n as i64 + slack).to_string().bytes());
+            } else {
+                // ddd000...0 e-(n+slack)
+                out.extend(&lead);
+                out.extend(std::iter::repeat(b'0').take(n));
+                out.push(b'E');
+                out.extend((-(n as i64) - slack).to_string().bytes());
+            }
+            if r.k[3] % 3 == 0 {
+                out.extend(b" tail");
+            }
+        }
         _ => {
             class = "arbitrary-bytes";
             let n = (r.k[0] % 64) as usize;
@@ -389,6 +420,9 @@ pub fn check_recipe(r: &Recipe, lim: Limits, stats: &mut Stats) -> Result<(), Fa
         stats.count("exponent-beyond-10-digits");
         nt = true;
     }
+    if s.exp.abs() >= 65536 && s.exp.abs() < 1_000_000 {
+        stats.count("explicit-exponent>=65536");
+    }
     if s.exp.abs() > i32::MAX as i128 {
         stats.count("exponent-beyond-i32");
     }
@@ -435,7 +469,7 @@ pub fn run(ctx: &Ctx) -> i32 {
     let r = run_recipes(ctx.seed, cases, ctx.threads, 19, |r, stats| check_recipe(r, lim, stats));
     rep.absorb(r);
     rep.extra.insert("front_end_copies".into(), json!(FRONTS.iter().map(|f| f.name).collect::<Vec<_>>()));
-    for k in ["non-empty-suffix", "zeros-to-trim", "exponent-beyond-10-digits", "special-literal", "copies-compared", "more-than-19-digits"] {
+    for k in ["non-empty-suffix", "zeros-to-trim", "exponent-beyond-10-digits", "special-literal", "copies-compared", "more-than-19-digits", "explicit-exponent>=65536"] {
         require_counter(&mut rep, k, 1000);
     }
     finish(ctx, rep)
